@@ -1,10 +1,10 @@
 ---- MODULE MCACVCases ----
 EXTENDS ACVCases
-MCProfiles == {"pOk", "pParse", "pGen", "pRego"}
+MCProfiles == {"pOk", "pParse", "pGen", "pRego", "pReport"}
 MCDocs == {"dOk", "dNoNodes", "dNotJson", "dLd", "dEval"}
 MCPClass == [p \in MCProfiles |->
    CASE p = "pOk" -> "ok" [] p = "pParse" -> "parseError"
-     [] p = "pGen" -> "genError" [] p = "pRego" -> "regoError"]
+     [] p = "pGen" -> "genError" [] p = "pRego" -> "regoError" [] p = "pReport" -> "reportError"]
 MCDClass == [d \in MCDocs |->
    CASE d = "dOk" -> "ok" [] d = "dNoNodes" -> "okNoNodes" [] d = "dNotJson" -> "notJson"
      [] d = "dLd" -> "ldReject" [] d = "dEval" -> "evalError"]
